@@ -1,8 +1,9 @@
 // Free-running concurrent workload of the QUICK tier, run in a child process
 // (VERIF_C15_CONC=1) so that a fatal runtime error ("concurrent map writes",
 // deadlock) is an observation of the parent, not a harness failure: one update
-// stream, an UpdateMetadata loop and an UpdateSize loop on ONE target, as
-// cmd/gnmi_collector runs them, a few repetitions of ~150 ms.  Printed per
+// stream over a growing store (16 subtrees x up to 400 leaves), an UpdateMetadata
+// loop and an UpdateSize loop on ONE target, as cmd/gnmi_collector runs them, a
+// few repetitions of ~150 ms; the refreshers stop before the stream does.  Printed per
 // repetition: the counters at quiescence.
 package main
 
@@ -21,61 +22,73 @@ func concWorkload() {
 	for rep := 0; rep < 4; rep++ {
 		c := cache.New([]string{"t"})
 		c.SetClient(func(*ctree.Leaf) {})
-		stop := make(chan struct{})
-		var wg sync.WaitGroup
-		wg.Add(3)
-		go func() { // the target's update stream
-			defer wg.Done()
+		stopRefresh := make(chan struct{})
+		stopStream := make(chan struct{})
+		var wgR, wgS sync.WaitGroup
+		wgS.Add(1)
+		wgR.Add(2)
+		go func() { // the target's update stream: a store that keeps growing (16 subtrees x up to 400 leaves)
+			defer wgS.Done()
 			c.Connect("t")
 			for i := 0; ; i++ {
 				select {
-				case <-stop:
+				case <-stopStream:
 					return
 				default:
 				}
 				ts := time.Now().UnixNano()
-				c.GnmiUpdate(mkNoti(updN(ts, pfx("t", "a"), pth([]string{"b", "c", "d", "e"}[i%4]), ival(int64(i%3)))))
+				sub := fmt.Sprintf("s%d", i%16)
+				leaf := fmt.Sprintf("l%d", (i/16)%400)
+				c.GnmiUpdate(mkNoti(updN(ts, pfx("t", sub), pth(leaf), ival(int64(i)))))
 				if i == 20 {
 					c.Sync("t")
 				}
-				if i%53 == 52 {
-					c.GnmiUpdate(mkNoti(delN(ts, pfx("t", "a"), pth("c"))))
+				if i%97 == 96 { // and shrinks now and then
+					c.GnmiUpdate(mkNoti(delN(ts, pfx("t", sub), pth(fmt.Sprintf("l%d", ((i/16)%400)/2)))))
 				}
 			}
 		}()
 		go func() { // periodic metadata refresh (tight: must overlap with the size refresh)
-			defer wg.Done()
+			defer wgR.Done()
 			for {
 				select {
-				case <-stop:
+				case <-stopRefresh:
 					return
 				default:
 					c.UpdateMetadata()
 				}
 			}
 		}()
-		go func() { // periodic size refresh
-			defer wg.Done()
+		go func() { // periodic size refresh: walks the whole store without the target's write lock
+			defer wgR.Done()
 			for {
 				select {
-				case <-stop:
+				case <-stopRefresh:
 					return
 				default:
 					c.UpdateSize()
 				}
 			}
 		}()
-		time.Sleep(150 * time.Millisecond)
-		close(stop)
-		done := make(chan struct{})
-		go func() { wg.Wait(); close(done) }()
-		select {
-		case <-done:
-		case <-time.After(10 * time.Second):
-			fmt.Fprintln(os.Stdout, "HANG: workload goroutines did not stop")
-			os.Exit(3)
+		wait := func(wg *sync.WaitGroup, what string) {
+			done := make(chan struct{})
+			go func() { wg.Wait(); close(done) }()
+			select {
+			case <-done:
+			case <-time.After(10 * time.Second):
+				fmt.Fprintln(os.Stdout, "HANG: "+what+" did not stop")
+				os.Exit(3)
+			}
 		}
-		c.UpdateMetadata()
+		// phase 1: everything runs; phase 2: the refreshers stop first and the
+		// stream goes on for a moment, so that no final refresh can paper over
+		// what the concurrent phase did to the counters
+		time.Sleep(150 * time.Millisecond)
+		close(stopRefresh)
+		wait(&wgR, "refresh goroutines")
+		time.Sleep(10 * time.Millisecond)
+		close(stopStream)
+		wait(&wgS, "update stream")
 		m := c.Metadata()["t"]
 		get := func(k string) int64 { v, _ := m.GetInt(k); return v }
 		n := int64(0)
